@@ -6,6 +6,8 @@ PROPERTY_MODULES = {
     "C08": ["combinators", "pjax_vmap"],
     "C14": ["seed", "pjax_vmap", "state"],
     "C19": ["state"],
+    "C10": ["smc", "core_gfi", "combinators", "lemmas"],
+    "C12": ["smc"],
     "C18": ["mcmc", "state"],
     "C09": ["mcmc", "core_gfi", "combinators", "choicemap"],
     "C06": ["seed"],
